@@ -35,7 +35,7 @@ def run(ctx):
     sub = {'quick': 11, 'thorough': 100}[ctx.tier]
     for drv in (w_alg.drive_composite, w_alg.drive_embed, w_alg.drive_merge, w_alg.drive_mask,
                 w_alg.drive_forwards, w_alg.drive_partial_retrieval):
-        ctx.deadline = time.time() + sub
+        ctx.deadline = ctx.clock() + sub
         drv(ctx, ctx.tier)
     ctx.deadline = saved
     from .. import w_misc
